@@ -28,6 +28,21 @@ NEEDED = {
  'C18-3': 'write-path sweep through the curve-writing instructions',
  'C19-2': '(harness bug: reward budget forged before the settle that consumed it)',
  'C20-3': 'venue staleness sweep for all six venue setups',
+ # round 2
+ 'C01-4': 'adversarial vault swaps (look-alike token accounts offered in place of each vault) in the C01 alphabet and C08 substitutes',
+ 'C02-5': 'PDA-flavoured transfer as a history action (C02 + C16)',
+ 'C03-5': 'root RE: a scheduled Token-2022 fee change with leader_schedule_epoch = epoch + 1 (as on a real cluster)',
+ 'C04-6': 'reference for venue-backed (Kamino/Solend/Drift) oracles; venue sweep in C09',
+ 'C05-4': 'look-alike insurance vault offered to liquidate (C08 substitutes)',
+ 'C06-4': 'cooperating foreign group whose fee settings differ (C08), so that the wrong group is observable',
+ 'C07-4': 'reduce-only collateral in the bankruptcy sweep',
+ 'C07-5': 'Token-2022 insurance mint whose maximum_fee caps the fee (large covers)',
+ 'C07-6': 'look-alike liquidity vault offered to handle_bankruptcy (C08 substitutes, C01 vault swaps)',
+ 'C08-4': 'empty start/end bracket golden + post-commit marker monitor',
+ 'C12-5': 'purge matrix over {no flag, ALLOWED only, ALLOWED+COMPLETE}',
+ 'C12-6': 'withdraw-all inside a deleverage bracket against the daily limit',
+ 'C13-5': '(caught by the sibling check C08: cooperating foreign-group cell)',
+ 'C14-4': 'extended pause scenario (pause, extend, propagate; probes up to the extended expiry)',
 }
 BUILT_AFTER = {'C09', 'C10', 'C11', 'C19'}  # checks written after their seeds existed
 
@@ -63,7 +78,7 @@ def table_seeds():
     by = {}
     for r in res:
         by.setdefault(r['seed'], []).append(r)
-    rows = ['| seed | change (sub-agent\'s title) | file | caught by (first clause) | needed before it was caught |', '|---|---|---|---|---|']
+    rows = ['| seed | round | change (sub-agent\'s title) | file | caught by (first clause) | needed before it was caught |', '|---|---|---|---|---|---|']
     missed = 0
     for d in sorted(glob.glob(f'{ROOT}/seeded/C*-*')):
         sid = os.path.basename(d)
@@ -76,11 +91,12 @@ def table_seeds():
         f = os.path.basename(files[0]) if files else ''
         caught = '; '.join(f"{r['check']}: {r['first_clause'] or ('exit ' + r['exit'])}" for r in by.get(sid, []) if r['exit'] == '1') or 'NOT CAUGHT'
         need = NEEDED.get(sid, '')
-        if not need and sid.split('-')[0] in BUILT_AFTER:
+        if not need and sid.split('-')[0] in BUILT_AFTER and not os.path.exists(f'{d}/round'):
             need = '(check written afterwards)'
         if sid in NEEDED:
             missed += 1
-        rows.append(f"| {sid} | {title} | {f} | {caught} | {need} |")
+        rnd = '2' if os.path.exists(f'{d}/round') else '1'
+        rows.append(f"| {sid} | {rnd} | {title} | {f} | {caught} | {need} |")
     rows.append('')
     rows.append(f"{missed} of the {len(rows) - 3} seeded changes needed a strengthening of an existing check; the rest were caught as the check stood or by a check written afterwards.")
     return '\n'.join(rows)
